@@ -111,9 +111,9 @@ fn shape_exec(func: &str, a: &mut Args) -> String {
                 let c = Compound::new(shapes); let s: &dyn Shape = &c; let m = s.mass_properties(d);
                 if func == "compound3_shape" { fmc3(&m) } else { format!("{} {}", fmc3(&m), d3::fv(&m.principal_inertia())) } }
         }
-        // Compound (2-D) of 1..9 placed parts of FIVE kinds (ball / cuboid / convex polygon / triangle / TriMesh) through `&dyn Shape`
+        // Compound (2-D) of 1..9 placed parts of FIVE kinds (ball / cuboid / convex polygon / triangle / zero-area Segment; composite parts are rejected by Compound::new) through `&dyn Shape`
         "compound2_shape" => {
-            use crate::p2::shape::{Ball, Compound, ConvexPolygon, Cuboid, Shape, SharedShape, TriMesh, Triangle};
+            use crate::p2::shape::{Ball, Compound, ConvexPolygon, Cuboid, Segment, Shape, SharedShape, Triangle};
             let d = a.f(); let n = a.u();
             let mut shapes: Vec<(d2::Isometry<f64>, SharedShape)> = Vec::new();
             let mut rejected = false;
@@ -125,8 +125,7 @@ fn shape_exec(func: &str, a: &mut Args) -> String {
                     2 => { let v = pts2(a);
                         match ConvexPolygon::from_convex_polyline_unmodified(v) { Some(p) => shapes.push((m, SharedShape::new(p))), None => rejected = true } }
                     3 => { let (p, q) = (d2::p(a), d2::p(a)); shapes.push((m, SharedShape::new(Triangle::new(p, q, d2::p(a))))); }
-                    _ => { let v = pts2(a); let i = idx(a);
-                        match catch_unwind(AssertUnwindSafe(|| TriMesh::new(v, i))) { Ok(Ok(t)) => shapes.push((m, SharedShape::new(t))), _ => rejected = true } }
+                    _ => { let (p, q) = (d2::p(a), d2::p(a)); shapes.push((m, SharedShape::new(Segment::new(p, q)))); }
                 }
             }
             if rejected || shapes.is_empty() { "none".into() } else {
@@ -287,7 +286,7 @@ pub fn gen(r: &mut Rng, thorough: bool, v: &mut Vec<(String, String)>) {
                          if area2 < 0.0 { pv.reverse(); }
                          format!("2 {}", hpts(&pv)) }
                   3 => format!("3 {}", htri(&gen_tri2(r, lat))),
-                  _ => { let (mv, mt) = gen_mesh(r, lat, false); format!("4 {}", hmesh(&mv, &mt)) }
+                  _ => { let t = gen_tri2(r, lat); format!("4 {} {}", d2::hp(&t[0]), d2::hp(&t[1])) }
               };
               parts.push(format!("{} {}", d2::hiso(&pm), body));
           }
